@@ -994,7 +994,8 @@ fn double_roundtrip(name: &str, src: &str, acc: &mut Acc) {
 /// `sig`: signature class to report a failure under (generated spaces that know which dimension a source exercises);
 /// None = class derived from the source text
 fn double_roundtrip_sig(name: &str, src: &str, sig: Option<&str>, acc: &mut Acc) {
-    acc.evals += 1;
+    // one evaluation = one (source, printer target) round trip; outcomes are recorded per target below
+    acc.evals += 2;
     let r = guard(|| {
         let t1 = match crate::util::parse_src(src) {
             Ok(t) => t,
